@@ -97,6 +97,10 @@ fixed("C20","80516ab","protect-auth/same-password-fails/lites/str/TypeError@nfc/
 fixed("C20","038edd5","protect*/lites/*AttributeError@nfc/tag/tt3_sony.py:_protect","Lite-S protect(bytes) raised AttributeError")
 
 fixed("C09","91ad532","escape/close/AssertionError@nfc/llcp/llc.py:remove_socket","close() overtaken by terminate(): remove_socket asserted socket.addr == self.addr")
+
+fixed("C09","13cb35c",["run-loop-died/TypeError@nfc/llcp/pdu.py:encode_header/unencodable-type","blocked-forever/*/*-socket/unencodable-type@*"],"sendto(data, '33'): TypeError while encoding in the link loop ended the loop without terminate(); every blocked call stayed blocked")
+fixed("C16","e3487f5","t2t/c16/silent-wrong-result/dump/lines-after-error-mark","NTAG I2C 2K dump(): footer pages read from sector 0 after a failed body read")
+fixed("C16","bb1d7e1","t3t/c16/format*/silent-wrong-memory/fresh-reader-finds-*","Type3Tag.format(): persistent error on the first Nbr/Nbw probe wrote Nbr=0/Nbw=0 and returned True")
 # ---- open -----------------------------------------------------------------------------------------------------
 open_("C04","recovery/res-RTOX/corrupt/nak-answered-by-res-RTOX/ini-ProtocolError/*","NFC-DEP: a corrupted RTOX response is NAKed, the Target retransmits the RTOX, the Initiator raises ProtocolError('received NFC-DEP RTOX response to NACK or ATN'): one corrupted frame is not recovered",
       "the Initiator's reaction is pinned by tests/test_dep.py::TestInitiator::test_exchange_retransmission_rtox_after_nack; RTOX is only sent when an application calls Target.send_timeout_extension()")
@@ -109,5 +113,7 @@ open_("C16","t3t/c16/protect_*/beyond-budget-unreported","FeliCa Lite/Lite-S pro
 open_("C07","escape/*/RuntimeError@nfc/llcp/tco.py:recv:recv_confs-recv_win","a peer that sends more I PDUs than the local receive window makes the application's recv() raise RuntimeError('recv_confs > recv_win') (timing dependent)",
       "repair changes the receive window accounting in _enqueue_state_established (FRMR/discard policy), not a local patch")
 
+open_("C06","*/connection-never-answered","accept() queues the CC before the accepted socket is inserted into its service access point; an I PDU that arrives in between is handed to the listening socket and dropped: put_octets returns True with nothing delivered or the client waits for ever (rare, schedule dependent)",
+      "same root as the open C05 finding window/pdu-before-cc: the CC placement is pinned by tests/test_llcp_tco.py::TestDataLinkConnection::test_accept")
 json.dump({"comment":"Genuine defects of nfcpy found by the checks. status=open: reported as KNOWN-FINDING (exit 0) when the signature matches; status=fixed: repaired by a 'fix:' commit in /repo, suppresses nothing (the check fails again if it returns). Signatures are mechanism descriptors produced by the checks (fnmatch patterns), never hashes or random values. Never written at run time.","findings":F}, open('/verif/known_findings.json','w'), indent=1)
 print(len(F))
